@@ -65,6 +65,7 @@ func genC18(r *Rng, tier string, idx int) *Plan {
 			p.Ops = append(p.Ops, Op{Kind: "probe", N: int64(r.Intn(3))})
 		}
 	}
+	p.Knobs["drain_each"] = int64(r.Intn(2))
 	p.Dice = drawDice(r, 256)
 	return p
 }
@@ -162,9 +163,14 @@ func runC18(t *testing.T, p *Plan) *Outcome {
 			subs[c].conn.Write(EncodeCmd(args...))
 			s.Settle()
 		}
+		drainNow := false
 		for i, op := range p.Ops {
 			if o.Sig != "" {
 				break
+			}
+			if drainNow {
+				deliver(100000)
+				drainNow = false
 			}
 			switch op.Kind {
 			case "deliver":
@@ -176,6 +182,12 @@ func runC18(t *testing.T, p *Plan) *Outcome {
 				if r.IsError() || r.Panic != "" {
 					fail("publish-failed", fmt.Sprintf("op %d %q: %s", i, op.Args, r))
 					break
+				}
+				if p.K("drain_each") == 1 && (Avoiding(p, "C18/reordered") || Avoiding(p, "C18/lost") || Avoiding(p, "C18/delivered-to-unsubscribed")) {
+					// open findings: delivery is asynchronous (per-message goroutines, subscriber set read at
+					// dequeue time). In half of the runs every message is fully delivered before the next command,
+					// so that anything else that goes wrong with delivery is not hidden behind those findings.
+					drainNow = true
 				}
 				ch, payload := op.Args[1], op.Args[2]
 				for c := 0; c < nsub; c++ {
@@ -206,6 +218,18 @@ func runC18(t *testing.T, p *Plan) *Outcome {
 				names = append(names, "PUBSUB")
 				switch op.N {
 				case 0:
+					if Avoiding(p, "C18/introspection:CHANNELS") {
+						anyPat := false
+						for c := 0; c < nsub; c++ {
+							if len(model[c].pats) > 0 {
+								anyPat = true
+							}
+						}
+						if anyPat {
+							o.Skipped++
+							break // open finding: patterns are listed as channels
+						}
+					}
 					r := probe.DoFiltered("PUBSUB", "CHANNELS")
 					want := map[string]bool{}
 					for c := 0; c < nsub; c++ {
@@ -312,6 +336,24 @@ func runC18(t *testing.T, p *Plan) *Outcome {
 				for _, f := range conf {
 					if len(f.Elems) == 3 && strings.EqualFold(f.Elems[0].Text(), name) {
 						gotNames = append(gotNames, f.Elems[1].Text())
+					}
+				}
+				if name == "PUNSUBSCRIBE" && len(op.Args) > 1 {
+					// Whether PUNSUBSCRIBE <pattern> also drops channel subscriptions whose NAME matches the pattern is
+					// not defined by the documentation (the pinned tree does it on purpose): the model follows the
+					// confirmations, provided every dropped name matches one of the patterns given.
+					for _, gn := range gotNames {
+						ok := false
+						for _, pat := range op.Args[1:] {
+							if gn == pat || globMatch(pat, gn) {
+								ok = true
+							}
+						}
+						if !ok {
+							fail("confirmation/punsubscribe", fmt.Sprintf("op %d %q confirmed dropping %q which matches none of the patterns", i, op.Args, gn))
+						}
+						delete(m.chans, gn)
+						delete(m.pats, gn)
 					}
 				}
 				a, b := append([]string{}, gotNames...), append([]string{}, wantNames...)
